@@ -325,12 +325,14 @@ def random_op(rng, impl, ti, *, labels, malformed=0.1, typed=False, ops=None, di
         op = {"op": "w.meta", "t": ti, "n": n, "kind": kind}
         if kind == "set":
             op["k"] = rng.choice(["a", "b"])
-            op["v"] = json.dumps(rng.choice([1, "x", [1, 2]]))
+            op["v"] = json.dumps(rng.choice([1, "x", [1, 2], 0, False, "", [], None, None]))
         elif kind == "clear":
             op["k"] = rng.choice([None, "a", "b"])
         else:
-            op["vals"] = [[rng.choice(["a", "c"]), json.dumps(rng.choice([1, 2]))]]
+            op["vals"] = [[k_, json.dumps(rng.choice([1, 2, 0, None]))] for k_ in rng.sample(["a", "c", "d"], rng.choice([0, 1, 1, 2]))]
             op["replace"] = rng.random() < 0.4
+            if rng.random() < 0.6:
+                op["shared"] = rng.choice([0, 1])
         return op
     raise AssertionError(k)
 
